@@ -92,6 +92,16 @@ def devwf(apdu, resp):
         tm.Implies(tm.And(tm.Eq(cmd, tm.Int(CMD_HEARTBEAT)), tm.Le(tm.Int(3), tm.Len(apdu)),
                           tm.Eq(tm.Nth(apdu, tm.Int(2)), tm.Int(2))),
                    der_ok_t(tm.Extract(resp, tm.Int(3), tm.Sub(n, tm.Int(3))))),
+        # GET_STATE: hash answers echo op and selector and carry 32 bytes; difficulty echoes op; flags are 3 bytes
+        tm.Implies(tm.And(tm.Eq(cmd, tm.Int(CMD_GET_STATE)), tm.Le(tm.Int(3), tm.Len(apdu))),
+                   tm.And(tm.Eq(op, tm.Nth(apdu, tm.Int(2))),
+                          tm.Implies(tm.Eq(op, tm.Int(1)), tm.And(tm.Eq(n, tm.Int(36)),
+                                                                   tm.Eq(tm.Nth(resp, tm.Int(3)), tm.Nth(apdu, tm.Int(3))))),
+                          tm.Implies(tm.Eq(op, tm.Int(3)), tm.Eq(n, tm.Int(6))))),
+        # RESET_AB answers DONE; GET_PARAMETERS answers 32 | 36 | 1 bytes with a known network id
+        tm.Implies(tm.Eq(cmd, tm.Int(0x21)), tm.Eq(op, tm.Int(2))),
+        tm.Implies(tm.Eq(cmd, tm.Int(0x11)),
+                   tm.And(tm.Eq(n, tm.Int(72)), tm.Or(*[tm.Eq(tm.Nth(resp, tm.Int(71)), tm.Int(m)) for m in (1, 2, 3)]))),
         # GET_MODE answers one of the three modes the firmware has
         tm.Implies(tm.Eq(cmd, tm.Int(CMD_GET_MODE)),
                    tm.Or(*[tm.Eq(tm.Nth(resp, tm.Int(1)), tm.Int(m)) for m in (2, 3, 4)])),
